@@ -102,6 +102,7 @@ pub struct Bounds {
     pub max_t: usize,
     pub max_uses: usize,
     pub perm_t: usize,
+    pub ign_t: usize,
 }
 
 pub fn enumerate(b: &Bounds) -> Vec<(u64, Cfg)> {
@@ -162,6 +163,23 @@ pub fn enumerate(b: &Bounds) -> Vec<(u64, Cfg)> {
                 }
             }
         }
+        // `ignores` concern change detection only: the entry one target uses is ignored (itself, or the
+        // directory above it) by its owner, by the user itself or by a bystander
+        let mut ign_sets: Vec<((usize, &str), (usize, String))> = vec![];
+        if nt <= b.ign_t {
+            for s in &slots {
+                for ui in 0..nt {
+                    let parent = match s.1.rfind('/') {
+                        Some(i) => s.1[..i].to_string(),
+                        None => s.1.to_string(),
+                    };
+                    ign_sets.push((*s, (ui, s.1.to_string())));
+                    if parent != s.1 {
+                        ign_sets.push((*s, (ui, parent)));
+                    }
+                }
+            }
+        }
         let perms = if nt <= b.perm_t {
             permutations(nt)
         } else {
@@ -178,6 +196,17 @@ pub fn enumerate(b: &Bounds) -> Vec<(u64, Cfg)> {
                 out.push((rank, Cfg { targets }));
             }
         }
+        for ((ti, e), (ui, g)) in &ign_sets {
+            let mut base: Vec<Tgt> = tset.iter().map(|p| Tgt::new(p)).collect();
+            base[*ti].uses.push(e.to_string());
+            base[*ui].ignores.push(g.clone());
+            let rank = (nt as u64) * 100_000 + 15_000;
+            out.push((rank, Cfg { targets: base.clone() }));
+            if nt >= 2 {
+                base.reverse();
+                out.push((rank + 1, Cfg { targets: base }));
+            }
+        }
     }
     out
 }
@@ -189,12 +218,14 @@ pub fn run(tier: &str, root: &Path) -> Value {
             max_t: 5,
             max_uses: 2,
             perm_t: 3,
+            ign_t: 3,
         }
     } else {
         Bounds {
             max_t: 4,
             max_uses: 1,
             perm_t: 3,
+            ign_t: 2,
         }
     };
     let cases = enumerate(&b);
@@ -212,9 +243,9 @@ pub fn run(tier: &str, root: &Path) -> Value {
         rep.sample(json!({"config": cfg.to_value(), "oracle_edges": cfg.adj()}));
     }
     rep.finish(
-        "every target set T of D10 (|T|<=max_t) x every placement of <=max_uses `uses` entries from P10 on any target, plus every pair of nested entries on one target (both orders), plus every single entry shared by two or by all targets, x every declaration order for |T|<=perm_t; case = one configuration, all distinct; non-trivial = oracle relation has at least one dependency",
+        "every target set T of D10 (|T|<=max_t) x every placement of <=max_uses `uses` entries from P10 on any target, plus every pair of nested entries on one target (both orders), plus every single entry shared by two or by all targets, plus (|T|<=ign_t) every single entry combined with an `ignores` entry (the entry or its parent directory) on any target, x every declaration order for |T|<=perm_t; case = one configuration, all distinct; non-trivial = oracle relation has at least one dependency",
         true,
-        json!({"max_targets": b.max_t, "max_uses_entries": b.max_uses, "all_orders_up_to_targets": b.perm_t,
+        json!({"max_targets": b.max_t, "max_uses_entries": b.max_uses, "all_orders_up_to_targets": b.perm_t, "ignores_up_to_targets": b.ign_t,
                "dir_universe": DIRS, "extra_entries": EXTRA}),
     )
 }
